@@ -17,6 +17,8 @@ type isStandardClass interface {
 	defaultsMap() map[string]slip.Object
 	directDefaultsMap() map[string]slip.Object
 	precedenceList() []slip.Symbol
+	classSlotOwner(name string) isStandardClass
+	classSlotNames() []string
 
 	Ready() bool
 	Vars() map[string]slip.Object
